@@ -1,0 +1,15 @@
+//go:build !verif
+
+package render
+
+// verifEv is a no-op unless built with the "verif" tag.
+func verifEv(ev string, a, b, c int) {}
+
+// verifEv5 is a no-op unless built with the "verif" tag.
+func verifEv5(ev string, a, b, c, d, e int) {}
+
+// verifBool is only used in hook arguments.
+func verifBool(b bool) int { return 0 }
+
+// verifID returns 0 unless built with the "verif" tag.
+func verifID() int { return 0 }
